@@ -16,16 +16,17 @@ Proof.
   induction fuel as [|fuel IH]; intros data cs wh rest H; [discriminate|].
   cbn [dec_comps] in H.
   destruct (len data <? 4) eqn:E4; [discriminate|].
-  set (skip := comp_skip (rd16 data)) in *.
-  destruct (len (skipn 4 data) <? skip) eqn:Es; [discriminate|].
-  assert (Hl4 : len (skipn 4 data) = len data - 4) by (rewrite len_skipn; lia).
+  remember (comp_skip (rd16 data)) as skip eqn:Hskip.
+  remember (skipn 4 data) as d4 eqn:Hd4.
+  assert (Hl4 : len d4 = len data - 4) by (subst d4; rewrite len_skipn; lia).
+  destruct (len d4 <? skip) eqn:Es; [discriminate|].
   assert (Hc : forall f g, len (enc_component {| c_flags := f; c_gid := g;
-                 c_data := firstn (N.to_nat skip) (skipn 4 data) |}) = 4 + skip).
+                 c_data := firstn (N.to_nat skip) d4 |}) = 4 + skip).
   { intros f g. rewrite len_enc_component. cbn [c_data]. rewrite len_firstn by lia. lia. }
-  assert (Hr : len (skipn (N.to_nat skip) (skipn 4 data)) = len data - 4 - skip)
+  assert (Hr : len (skipn (N.to_nat skip) d4) = len data - 4 - skip)
     by (rewrite len_skipn; lia).
   destruct (has (rd16 data) glyf_FlagMoreComponents).
-  - destruct (dec_comps fuel (skipn (N.to_nat skip) (skipn 4 data))) as [[[cs' wh'] rest']| | |] eqn:Ed;
+  - destruct (dec_comps fuel (skipn (N.to_nat skip) d4)) as [[[cs' wh'] rest']| | |] eqn:Ed;
       cbn [obind] in H; try discriminate.
     injection H as <- <- <-. specialize (IH _ _ _ _ Ed).
     cbn [flat_map]. rewrite len_app, Hc. lia.
@@ -49,11 +50,12 @@ Proof.
     destruct (dec_comps (S (length (skipn 10 data))) (skipn 10 data)) as [[[cs wh] rest]| | |] eqn:Ec;
       cbn [obind] in Ed; try discriminate.
     pose proof (dec_comps_size _ _ _ _ _ Ec) as Hsz.
+    remember (skipn 2 rest) as d2 eqn:Hd2.
+    assert (Hd : len d2 = len rest - 2) by (subst d2; rewrite len_skipn; lia).
     injection Ed as <-. cbn [enc_body]. rewrite len_app, len_enc_ins.
     destruct (wh && (2 <=? len rest)) eqn:Ew.
     + apply andb_true_iff in Ew as [_ H2].
-      assert (Hd : len (skipn 2 rest) = len rest - 2) by (rewrite len_skipn; lia).
-      destruct (rd16 rest <? len (skipn 2 rest)) eqn:EL.
+      destruct (rd16 rest <? len d2) eqn:EL.
       * rewrite len_firstn by lia. lia.
       * lia.
     + lia.
@@ -84,11 +86,21 @@ Proof.
     fold (total_gsize gs). split; lia.
 Qed.
 
+Lemma all_le_last b offs : forall d, all_le b offs -> d <= b -> last offs d <= b.
+Proof.
+  induction offs as [|o r IH]; intros d H Hd; cbn [last]; [exact Hd|].
+  inversion H as [|? ? Ho Hr]; subst. destruct r as [|o' r']; [exact Ho|]. apply IH; assumption.
+Qed.
+
 Lemma components_le_gsize g : 4 * ncomponents g <= gsize g.
 Proof.
-  unfold ncomponents, gsize. destruct g as [[bx [nc e|cs ins]]|]; cbn [components g_data enc_body]; try (rewrite len_nil; lia).
-  rewrite len_map, !len_app. induction cs as [|c cs IH]; cbn [flat_map]; [rewrite len_nil; lia|].
-  rewrite len_cons, len_app, len_enc_component. lia.
+  unfold ncomponents, gsize. destruct g as [[bx [nc e|cs ins]]|]; cbn [components g_data enc_body];
+    try (change (len (@nil N)) with 0; lia).
+  rewrite len_map, !len_app.
+  assert (H : 4 * len cs <= len (flat_map enc_component cs)).
+  { induction cs as [|c cs IH]; cbn [flat_map]; [unfold len; cbn [length]; lia|].
+    rewrite len_cons, len_app, len_enc_component. lia. }
+  lia.
 Qed.
 
 Lemma decode_size e gg : M_decode e = Ok gg ->
@@ -100,17 +112,12 @@ Proof.
   destruct (decode_loca_sound _ _ _ _ El) as [Hm Hl].
   destruct (dec_glyphs_size _ _ _ 0 _ Hm H) as [H1 H2].
   split.
-  - assert (last offs 0 <= len (e_glyf e)).
-    { destruct offs as [|o r]; [cbn; lia|].
-      pose proof (mono_all_le_last 0 (o :: r) Hm) as Hall.
-      assert (Hin : In (last (o :: r) 0) (o :: r)) by (apply (@exists_last _ (o :: r)) ; discriminate).
-      admit_in. }
-    lia.
+  - pose proof (all_le_last _ offs 0 Hl ltac:(lia)). lia.
   - unfold M_decode_loca in El.
     destruct (e_fmt e =? 0)%Z.
-    + destruct ((len (e_loca e) <? 4) || negb (len (e_loca e) mod 2 =? 0)); [discriminate|].
-      apply dec_loca0_length in El. lia.
+    + destruct ((len (e_loca e) <? 4) || negb (len (e_loca e) mod 2 =? 0)) eqn:Ec; [discriminate|].
+      apply dec_loca0_length in El. unfold len in Ec. lia.
     + destruct (e_fmt e =? 1)%Z; [|discriminate].
-      destruct ((len (e_loca e) <? 8) || negb (len (e_loca e) mod 4 =? 0)); [discriminate|].
-      apply dec_loca1_length in El. lia.
+      destruct ((len (e_loca e) <? 8) || negb (len (e_loca e) mod 4 =? 0)) eqn:Ec; [discriminate|].
+      apply dec_loca1_length in El. unfold len in Ec. lia.
 Qed.
